@@ -182,7 +182,7 @@ where C::Stamp: PartialEq + std::fmt::Debug, C::Error: std::fmt::Debug {
   if let Some(e) = expected {
     if e { stats.class("observed_aspect_differs"); }
     if got != e {
-      return Err(Failure::new(format!("{:?}: stamped in {:?} (mtime {}), checked in {:?} (mtime {}): inconsistent={} but the observed aspect {}", case.ck, case.s1, case.t1, case.s2, case.t2, got, if e { "differs" } else { "is the same" })));
+      return Err(Failure::new(format!("{:?}: stamped in {:?} (stored mtime {:?}), checked in {:?} (stored mtime {:?}): inconsistent={} but the observed aspect {}", case.ck, case.s1, m1, case.s2, m2, got, if e { "differs" } else { "is the same" })));
     }
   } else { stats.class("pair_without_claim"); }
   Ok(())
